@@ -137,6 +137,8 @@ def shards(tier: str, seed: int):
         out.append(["kid", b.bid])
         if "/nonce/" in b.bid and "/long" not in b.bid:
             out.append(["l0sweep", b.bid])
+        if "/long" not in b.bid and not dh:
+            out.append(["sidtext", b.bid])
     for part in range(8):
         out.append(["short", part])
     out.append(["hdr2"])
@@ -150,6 +152,29 @@ def other_root(seed: int):
 
 
 _cur: t.Dict[str, t.Any] = {"shard": None, "tier": None}
+
+
+def sid_texts() -> t.List[str]:
+    """descriptor strings for the blob's SID field: every number of the SID at the edges of its width (2^k-1, 2^k, 2^k+1), counts of
+    sub-authorities around the maximum, leading zeros, other radices, junk"""
+    edge32 = [0, 1, 2**31 - 1, 2**31, 2**32 - 1, 2**32, 2**32 + 1, 2**33, 2**63, 2**64, 2**64 + 1, 10**40]
+    edge48 = [0, 5, 2**32 - 1, 2**32, 2**48 - 1, 2**48, 2**48 + 1, 2**56, 2**64]
+    out = []
+    for v in edge32:
+        for posn in range(5):
+            subs = [21, 1, 2, 3, 1104]
+            subs[posn] = v
+            out.append("S-1-5-" + "-".join(str(x) for x in subs))
+        out.append(f"S-1-5-{v}")
+        out.append(f"S-1-5-21-{v:011d}-7")
+    for a in edge48:
+        out += [f"S-1-{a}-21-1-2-3-1104", f"S-1-0x{a:X}-32-544", f"S-1-0x{a:012X}-18"]
+    for r in (0, 1, 2, 15, 255, 256, 2**32):
+        out.append(f"S-{r}-5-18")
+    for cnt in (0, 1, 14, 15, 16, 17, 255, 256):
+        out.append("S-1-5" + "".join(f"-{i + 1}" for i in range(cnt)))
+    out += ["", "S", "S-", "S-1", "S-1-", "S-1-5-", "s-1-5-18", "S-1-5-18-", "S-1-5--18", "S-1-5-+18", "S-1-5- 18", "S-1-5-18 ", " S-1-5-18", "S-1-5-1_8", "S-1-5-0x12", "S-1-5-1e3", "S-1-5-18\x00", "S-1-5-\u0661\u0668", "S-1-5-\uff11\uff18", "\ufeffS-1-5-18", "S-1-5-18\n", "S" + "-1" * 400, "S-1-5-" + "9" * 4000]
+    return out
 
 
 def l0_variants(base: bm.Base, l0s) -> t.List[t.Tuple[int, bytes]]:
@@ -197,6 +222,23 @@ def run_shard(shard, tier, seed, acc) -> None:
         acc.sample({"blob": base.bid, "L0 values on one cache": 39, "orders": ["asc", "desc", "zigzag"]})
         return
     n = 0
+    if what == "sidtext":
+        base = bm.base_by_id(seed, shard[1])
+        b_ = cms.decode(base.blob)
+        warm = seams.make_cache(base.rk)
+        for i_, text in enumerate(sid_texts()):
+            try:
+                data = cms.encode(b_._replace(sid=text))
+            except Exception:  # noqa: BLE001
+                continue
+            judge(acc, base.rk, ["sidtext", base.bid, i_], data, allowed, cache=warm if i_ % 2 else None)
+            n += 1
+            acc.nt((base.bid, data))
+        acc.ev(n)
+        acc.states += n
+        acc.transitions += n
+        acc.sample({"blob": base.bid, "SID field replaced by": sid_texts()[5:9] + sid_texts()[-4:-2]})
+        return
     if what in ("simple", "der", "kid"):
         base = bm.base_by_id(seed, shard[1])
         st, v, steps, kdfs = execute(base.rk, base.blob)
@@ -295,6 +337,9 @@ def replay(case, seed, acc) -> None:
             warm = seams.make_cache(base.rk)
             execute(base.rk, base.blob, warm)
         judge(acc, rk, case, data, allowed, cache=warm)
+    elif k == "sidtext":
+        base = bm.base_by_id(seed, case[1])
+        judge(acc, base.rk, case, cms.encode(cms.decode(base.blob)._replace(sid=sid_texts()[case[2]])), allowed)
     elif k == "raw":
         judge(acc, other_root(seed), case, bytes.fromhex(case[1]), allowed)
     elif k in ("win", "win-wrongkey"):
